@@ -12,7 +12,7 @@ Line protocol of the C18 model (one s-expression in, one out):
   (la Z|Q (LIT ...) (NUM ...))                       ->  T | F             la_generic / la_tautology accepts?
 TERM = (v n) | (k c) | (c TERM TERM);  HYPS = (TERM ...);  WK = T | F (`wellKinded`)
 CMD = (assume TERM) | (step RULE (TERM ...) (NAT ...) (NAT ...))     premises = positions of earlier commands
-  (arith comp Z|Q CMP ATM ATM RHS) | (arith minus Z|Q ATM ATM) | (arith uminus Z|Q ATM ATM) | (arith div Q ATM ATM) | (arith sum Z|Q ATM ATM)
+  (arith comp Z|Q CMP ATM ATM RHS) | (arith minus Z|Q ATM ATM) | (arith uminus Z|Q ATM ATM) | (arith div Q ATM ATM) | (arith sum|prod Z|Q ATM ATM)
   | (arith eqs Z|Q NEG ATM ATM tt|ff|other)  ->  T | F
 ATM = (l n) | (a k) | (+ ATM ATM) | (- ATM ATM) | (~ ATM) | (* ATM ATM) | (/ ATM ATM);  CMP in lt le gt ge
 RHS = tt | ff | (le ATM ATM) | (nle ATM ATM) | other
@@ -130,6 +130,8 @@ def arithOp : List Sexp → Option Bool
   | [.atom "uminus", .atom "Z", a, b] => do some (Arith.unaryMinusSimplifyZ (← atmOf a) (← atmOf b))
   | [.atom "sum", .atom "Q", a, b] => do some (Arith.sumSimplifyQ (← atmOf a) (← atmOf b))
   | [.atom "sum", .atom "Z", a, b] => do some (Arith.sumSimplifyZ (← atmOf a) (← atmOf b))
+  | [.atom "prod", .atom "Q", a, b] => do some (Arith.prodSimplify (α := Rat) (← atmOf a) (← atmOf b))
+  | [.atom "prod", .atom "Z", a, b] => do some (Arith.prodSimplify (α := Int) (← atmOf a) (← atmOf b))
   | [.atom "div", .atom "Q", a, b] => do some (Arith.divSimplifyQ (← atmOf a) (← atmOf b))
   | [.atom "eqs", .atom "Q", n, a, b, r] => do some (Arith.eqSimplifyQ (← n.toBool?) (← atmOf a) (← atmOf b) (← erhsOf r))
   | [.atom "eqs", .atom "Z", n, a, b, r] => do some (Arith.eqSimplifyZ (← n.toBool?) (← atmOf a) (← atmOf b) (← erhsOf r))
